@@ -377,6 +377,12 @@ func c15JudgePos(c *mon.Ctx, in *c15Pos) {
 	var err error
 	if c.Try("bscript.NewP2PKHFromPubKeyHash", func() { s, err = bscript.NewP2PKHFromPubKeyHash(h) }) {
 		checkScript("NewP2PKHFromPubKeyHash", s, err)
+		if s != nil && err == nil { // the caller owns the script: it overwrites it and asks again
+			mon.Scribble(*s)
+			if c.Try("bscript.NewP2PKHFromPubKeyHash", func() { s, err = bscript.NewP2PKHFromPubKeyHash(h) }) {
+				checkScript("NewP2PKHFromPubKeyHash(asked again)", s, err)
+			}
+		}
 	}
 	if c.Try("bscript.NewP2PKHFromPubKeyHashStr", func() { s, err = bscript.NewP2PKHFromPubKeyHashStr(hx) }) {
 		checkScript("NewP2PKHFromPubKeyHashStr", s, err)
